@@ -28,7 +28,9 @@ ASSUMPTIONS = [
 
 
 def _ops_of(spec):
-    return [list(o) for o in spec["a"]] + [["insert_hugr", [list(o) for o in spec["b"]], spec["parent"]]]
+    b = [list(o) for o in spec["b"]]
+    first = [["insert_hugr", b, spec["first"]]] if "first" in spec else []
+    return [list(o) for o in spec["a"]] + first + [["insert_hugr", b, spec["parent"]]]
 
 
 def payload(spec):
@@ -115,6 +117,12 @@ def oracle(spec):
     parent = spec["parent"]
     if parent is not None and parent not in [n.idx for n in ra.h]:
         return fails
+    if "first" in spec:
+        # the same B was inserted once before (elsewhere): the second insertion embeds it again, afresh
+        try:
+            ra.h.insert_hugr(rb.h, ra.node(spec["first"]) if spec["first"] is not None else None)
+        except Exception:  # noqa: BLE001
+            return fails
     a_before = _dump(ra.h)
     b_before = _dump(rb.h)
     b_snap = C04.snapshot(rb.h)
@@ -252,7 +260,10 @@ def cases(rng, tier):
         b = C04._gen_history(rng, rng.randint(1, 25), 8, False, del_rate=rng.choice([0.0, 0.2, 0.35]))["ops"]
         live_a = sorted(C04._simulate_live(a))
         parent = rng.choice(live_a) if rng.random() < 0.8 else None
-        yield {"kind": "raw", "a": a, "b": b, "parent": parent}
+        spec = {"kind": "raw", "a": a, "b": b, "parent": parent}
+        if rng.random() < 0.2:
+            spec["first"] = rng.choice(live_a) if rng.random() < 0.8 else None
+        yield spec
     for i in range(n_b):
         yield {
             "kind": rng.choice(["nested", "cfg", "cond", "loop"]),
@@ -275,6 +286,7 @@ def stats(spec, obs, counters):
         counters["b.with-order-link"] += any(o[0] == "add_order_link" for o in spec["b"])
         counters["parent.none"] += spec["parent"] is None
         counters["ended-by-raise"] += "(raise" in obs
+        counters["b.inserted-once-before"] += "first" in spec
 
 
 def shrink(spec, pred):
